@@ -71,6 +71,15 @@ class Reader:
             return "units"
         if kind == "broken":
             return "broken"
+        if kind == "badunits":
+            return "badunits"       # '<m<s>': a units delimiter inside units
+        if kind == "badchar":
+            if self.d == "default":
+                raise Ambiguous("any character is allowed by the default grammar")
+            if self.d == "ISISv" and text == "\u03b1":
+                # ISISGrammar inherits PVL's character set: not allowed
+                return "badchar"
+            return "badchar"
         fold = text.casefold()
         if fold == "end":
             return "END"
